@@ -5,6 +5,7 @@ package standard
 import (
 	"context"
 	"fmt"
+	"sync"
 	"time"
 
 	"github.com/attestantio/go-eth2-client/api"
@@ -57,16 +58,20 @@ func (h hStartAccounts) SyncCommitteeAccountsForEpochByIndex(_ context.Context, 
 	return h.one(), nil
 }
 
-// hRecSubscriber records for which epoch and which validators beacon committee subscriptions were asked.
+// hRecSubscriber records for which epoch and which validators beacon committee subscriptions
+// were asked (the controller subscribes from goroutines of its own: the record is locked).
 type hRecSubscriber struct {
+	mu     sync.Mutex
 	epochs []phase0.Epoch
 	with8  []bool
 }
 
 func (h *hRecSubscriber) Subscribe(_ context.Context, epoch phase0.Epoch, accounts map[phase0.ValidatorIndex]e2wtypes.Account) (map[phase0.Slot]map[phase0.CommitteeIndex]*beaconcommitteesubscriber.Subscription, error) {
 	_, has := accounts[8]
+	h.mu.Lock()
 	h.epochs = append(h.epochs, epoch)
 	h.with8 = append(h.with8, has)
+	h.mu.Unlock()
 	return map[phase0.Slot]map[phase0.CommitteeIndex]*beaconcommitteesubscriber.Subscription{}, nil
 }
 
